@@ -1,9 +1,17 @@
 from ural.data import ISO_3166_1_COUNTRIES_ALPHA_2
-from ural.normalize_url import normalize_url, normalize_hostname
-from ural.utils import SplitResult, urlunsplit, urlsplit, unsplit_netloc
+from ural.normalize_url import normalize_url, normalize_hostname, qsl_sort_key
+from ural.utils import (
+    SplitResult,
+    urlunsplit,
+    urlsplit,
+    unsplit_netloc,
+    safe_qsl_iter,
+    safe_serialize_qsl,
+)
 from ural.infer_redirection import infer_redirection as resolve
 from ural.ensure_protocol import ensure_protocol
 from ural.tld import split_suffix
+from ural.quote import upper_quoted
 
 LANG_QUERY_KEYS = ("gl", "hl")
 
@@ -76,6 +84,16 @@ def fingerprint_url(url, unsplit=True, strip_suffix=False, platform_aware=False)
         platform_aware=platform_aware,
     )
     _, netloc, path, query, fragment = splitted
+
+    # NOTE: letters that were escaped ("%41") were out of reach of the
+    # lowercasing above, but have been unescaped since
+    path = upper_quoted(path.lower())
+    query = upper_quoted(query.lower())
+
+    # NOTE: and the items must be sorted again once lowercased
+    if query:
+        query = safe_serialize_qsl(sorted(safe_qsl_iter(query), key=qsl_sort_key))
+    fragment = upper_quoted(fragment.lower())
 
     user, password, hostname, port = (
         splitted.username,
